@@ -1,24 +1,25 @@
 #!/usr/bin/env bash
-# usage: verify_seed.sh <ID> <dir with patch.diff demo.rs notes.md> [check ids...]
+# usage: verify_seed.sh <NAME> <dir with patch.diff demo.rs notes.md> [property = check id, default NAME]
+#        (NAME is the directory under /verif/seeded, e.g. C03 or C03-2)
 # 1. confirms in a scratch worktree that the change compiles, passes the 403 baseline tests, and that the
 #    demonstration fails with it and passes without it; 2. applies it to /repo, runs the checks, undoes it.
 set -u
-ID=$1; SRC=$2; shift 2; CHECKS=${*:-$ID}
+ID=$1; SRC=$2; shift 2; CHECKS=${*:-$ID}; PROP=${CHECKS%% *}; T=$(echo $ID | tr "-" "_")
 OUT=/verif/seeded/$ID; mkdir -p $OUT
 cp $SRC/patch.diff $OUT/patch.diff; cp $SRC/demo.rs $OUT/demo.rs; cp $SRC/notes.md $OUT/notes.md 2>/dev/null
 WT=/tmp/vs_wt   # one fixed scratch path + one shared target dir: only the changed files are recompiled
 export CARGO_TARGET_DIR=/tmp/vs_target
 git -C /repo worktree remove --force $WT >/dev/null 2>&1
 git -C /repo worktree add --detach $WT HEAD >/dev/null 2>&1 || { echo "cannot create worktree"; exit 2; }
-mkdir -p $WT/tests; cp $SRC/demo.rs $WT/tests/demo_$ID.rs
+mkdir -p $WT/tests; cp $SRC/demo.rs $WT/tests/demo_$T.rs
 cd $WT
 export CARGO_NET_OFFLINE=true
 if ! git apply $OUT/patch.diff; then echo "PATCH DOES NOT APPLY"; applies=false; else applies=true; fi
 build=$(cargo build --offline 2>&1 | tail -1)
 base=$(QV_REPO=$WT bash /verif/baseline_off.sh | tail -1)
-demo_with=$(cargo test --offline --features sqlite --test demo_$ID 2>&1 | grep -E "^test result|error(\[|:)" | head -3 | tr '\n' ' ')
+demo_with=$(cargo test --offline --features sqlite --test demo_$T 2>&1 | grep -E "^test result|error(\[|:)" | head -3 | tr '\n' ' ')
 git apply -R $OUT/patch.diff
-demo_without=$(cargo test --offline --features sqlite --test demo_$ID 2>&1 | grep -E "^test result|error(\[|:)" | head -3 | tr '\n' ' ')
+demo_without=$(cargo test --offline --features sqlite --test demo_$T 2>&1 | grep -E "^test result|error(\[|:)" | head -3 | tr '\n' ' ')
 cd /verif
 git -C /repo worktree remove --force $WT
 unset CARGO_TARGET_DIR
@@ -38,10 +39,10 @@ for c in $CHECKS; do
   done
 done
 git -C /repo checkout -- . ; git -C /repo status --short | head -3
-python3 - "$ID" "$applies" "$build" "$base" "$demo_with" "$demo_without" "[${results%,}]" <<'PY'
+python3 - "$ID" "$applies" "$build" "$base" "$demo_with" "$demo_without" "[${results%,}]" "$PROP" <<'PY'
 import json,sys
-ID,applies,build,base,dw,dwo,res=sys.argv[1:8]
-meta={"property":ID,"applies":applies=="true","build":build,"baseline_with_change":base,"demo_with_change":dw,"demo_without_change":dwo,"checks":json.loads(res),
+ID,applies,build,base,dw,dwo,res,PROP=sys.argv[1:9]
+meta={"property":PROP,"applies":applies=="true","build":build,"baseline_with_change":base,"demo_with_change":dw,"demo_without_change":dwo,"checks":json.loads(res),
       "ran":["git worktree add /tmp/vs_ID; git apply patch.diff; cargo build --offline; baseline_off.sh (403 tests); cargo test --test demo_ID (with / without the change)","git -C /repo apply patch.diff; ./check <id> quick; git -C /repo checkout -- ."]}
 p=f"/verif/seeded/{ID}/meta.json"
 try: old=json.load(open(p))
